@@ -264,8 +264,11 @@ def one(ctx, i):
             if not (rec and rec[0] != rec[0]):
                 ctx.violation('C16:sensor-read-not-the-recorded-sample', dict(wit, call_at_instants=nt, read=[v, u], recorded=rec), case)
                 return
-    if len(b1.probe_log) != (t1.n - first_checked):
-        ctx.violation('C16:condition-not-checked-once-per-computed-instant', dict(wit, checks=len(b1.probe_log), computed_instants=t1.n - first_checked), case)
+    # every computed instant must have been checked (how many times is not part of the statement)
+    checked = {nt - 1 for (nt, _, _, _) in b1.probe_log}
+    missing = [k for k in range(first_checked, t1.n) if k not in checked]
+    if missing:
+        ctx.violation('C16:computed-instant-never-checked', dict(wit, unchecked_instants=missing[:5], computed_instants=t1.n - first_checked), case)
         return
     if t1.n < N:
         ctx.count('early_stops')
